@@ -100,6 +100,7 @@ class TriggerHandler:
         """Start the trigger handler."""
         # if we call settrace we cannot use debugger,
         # so we allow the settrace to be disabled, so we can at least debug around it
+        self.__shutdown = False
         if self._config.NO_TRACE:
             return
         self.__old_sys_trace = sys.gettrace()
